@@ -7,6 +7,8 @@ import (
 	"math/rand"
 	"sort"
 
+	"github.com/sdcio/yang-parser/schema"
+
 	"verif/harness/internal/dvm"
 	"verif/harness/internal/wkm"
 )
@@ -172,4 +174,33 @@ func recordWalk(args []string) {
 		}
 	}
 	fmt.Println(canon(map[string]int{"events": events, "uncompilable": bad}))
+}
+
+// probeAlias: does the `path` slice an action function receives stay what it was once the walk goes on?
+// (an action that keeps the slice without copying it shares its backing array with later calls)
+func probeAlias(args []string) {
+	for _, sh := range readShapes(args[0]) {
+		ms, err := dvm.Compile(sh)
+		if err != nil {
+			die("%v", err)
+		}
+		type kept struct {
+			name string
+			path []string
+			copy []string
+		}
+		var ks []kept
+		ms.FindOrWalk(schema.NodeSpec{}, func(t schema.Node, p *schema.XNode, s schema.NodeSpec, path []string, param interface{}) (bool, bool, []interface{}) {
+			ks = append(ks, kept{t.Name(), path, append([]string{}, path...)})
+			return false, true, nil
+		}, nil)
+		changed := 0
+		for _, k := range ks {
+			if canon(k.path) != canon(k.copy) {
+				changed++
+				fmt.Printf("shape %d: path kept for %q was %v, is now %v\n", sh.ID, k.name, k.copy, k.path)
+			}
+		}
+		fmt.Printf("shape %d: %d calls, %d kept paths changed afterwards\n", sh.ID, len(ks), changed)
+	}
 }
